@@ -868,6 +868,33 @@ def small_flows(rng, key):
     return out
 
 
+def non_trainable_fn_violations():
+    """`non_trainable(tree)` must freeze EVERY inexact array leaf of `tree`, also those that sit inside another wrapper
+    (BijectionReparam / Lambda / Where / WeightNormalization): afterwards the trainable half of the training partition holds no array,
+    and unwrapping gives the same values."""
+    out = []
+    trees = {
+        "Affine": B.Affine(jnp.asarray([0.3, -0.2]), jnp.asarray([1.5, 0.7])),
+        "Normal": D.Normal(jnp.asarray([0.1, 0.2]), jnp.asarray([1.2, 0.8])),
+        "RationalQuadraticSpline": B.RationalQuadraticSpline(knots=3, interval=2),
+        "dict(Where, Lambda, array)": {"w": Where(jnp.asarray([True, False]), jnp.asarray([1.0, 2.0]), jnp.asarray([3.0, 4.0])),
+                                         "l": Lambda(lambda a: a * 2.0, jnp.asarray([0.5])), "a": jnp.asarray([7.0])},
+        "WeightNormalization": WeightNormalization(jnp.asarray([[1.0, 2.0], [0.5, -1.0]])),
+    }
+    for name, t in trees.items():
+        try:
+            z = non_trainable(t)
+            params, _ = eqx.partition(z, eqx.is_inexact_array, is_leaf=lambda leaf: isinstance(leaf, NonTrainable))
+            left = [l for l in jax.tree_util.tree_leaves(params) if eqx.is_inexact_array(l)]
+            if left:
+                out.append(f"non_trainable({name}): {len(left)} inexact array leaves are still in the trainable half of the partition")
+            if not trees_bitwise_equal(unwrap(z), unwrap(t)):
+                out.append(f"non_trainable({name}): unwrapping the frozen tree gives different values")
+        except Exception as ex:  # noqa: BLE001
+            out.append(f"non_trainable({name}) raised {type(ex).__name__}: {str(ex)[:120]}")
+    return out
+
+
 def freeze_variants(name, flow, rng):
     """strict subsets frozen through the public API"""
     vs = []
@@ -875,6 +902,9 @@ def freeze_variants(name, flow, rng):
     if name == "affine":
         vs.append(("loc", eqx.tree_at(lambda f: f.bijection.loc, flow, replace_fn=NonTrainable)))
         vs.append(("scale-tree", eqx.tree_at(lambda f: f.bijection.scale, flow, replace_fn=NonTrainable)))
+        # the FUNCTION non_trainable applied to a subtree whose parameter is itself wrapped (BijectionReparam): it has to descend into it
+        vs.append(("scale-fn", eqx.tree_at(lambda f: f.bijection.scale, flow, replace_fn=non_trainable)))
+        vs.append(("bijection-fn", eqx.tree_at(lambda f: f.bijection, flow, replace_fn=non_trainable)))
     if name == "maf":
         vs.append(("masked-mlp-layer0", eqx.tree_at(lambda f: _first_mlp(f).layers[0], flow, replace_fn=non_trainable)))
     if name == "coupling":
@@ -1223,6 +1253,11 @@ def corr(c, tier, rng):
             except Exception as ex:
                 c.mismatch("harness-exception", desc=f"vmapped-generated:{kind}:{levels}", exc=repr(ex)[:300])
 
+    # C0. the function non_trainable freezes every inexact leaf, also inside other wrappers (real code only)
+    for v in non_trainable_fn_violations():
+        c.mismatch("non_trainable-freezes-every-inexact-leaf", detail=v)
+    c.case(("non_trainable-fn",), True)
+    c.count("non_trainable-fn")
     # C. real flows: model partition / num_params / unwrap structure; methods; gradients; training
     key, k1, k2 = jr.split(key, 3)
     try:
@@ -1429,6 +1464,9 @@ def search(hints, tier, rng):
             v, _ = vmap_frozen_violations(jr.PRNGKey(3), optname, loop)
             if v and add(f"vmap-frozen|{optname}|{loop}", kind="vmap_frozen", opt=optname, loop=loop, violations=v):
                 return wit
+        v = non_trainable_fn_violations()
+        if v and add("non_trainable_fn", kind="non_trainable_fn", violations=v):
+            return wit
         flows = small_flows(random.Random(1), key)
         j = 0
         for name, flow in flows:
@@ -1495,6 +1533,8 @@ def _replay(w):
                 return bool(dist_violations(name, d, key))
     if k == "guard":
         return bool(guard_table_violations()[0])
+    if k == "non_trainable_fn":
+        return bool(non_trainable_fn_violations())
     if k in ("grad", "train"):
         for name, flow in small_flows(random.Random(1), key):
             for vname, fz in freeze_variants(name, flow, random.Random(1)):
